@@ -53,4 +53,8 @@ def write(prop, ev):
         json.dump(ev, f, indent=1, sort_keys=False, default=str)
         f.write("\n")
     os.replace(tmp, path)
+    # a per-tier copy, so that the record of the deepest run survives the next quick run
+    tdir = os.path.join(EVID_DIR, "tiers")
+    os.makedirs(tdir, exist_ok=True)
+    shutil.copyfile(path, os.path.join(tdir, f"{prop}.{ev.get('tier', 'quick')}.json"))
     return path
